@@ -26,8 +26,8 @@ Assumptions (this file is part of the trusted base; spec/Store.tla states the sa
      invalidation message [key] for each remembering connection's redirect target and forgets
      the key for everybody, until it is read again.  "Modification" = a write command that
      changes something: DEL of an existing key, HSET, HDEL of an existing field, RPUSH/LPUSH,
-     LSET, LTRIM/LREM/LINSERT that change the list, EXPIRE/PERSIST on an existing key.  DEL of a missing key modifies
-     nothing and signals nothing.  SCAN names no key and is not tracked.
+     LSET, LTRIM/LREM/LINSERT that change the list, EXPIRE/PERSIST on an existing key.  DEL of a
+     missing key modifies nothing and signals nothing.  SCAN names no key and is not tracked.
      An invalidation reaches the redirect target as a pub/sub message on the channel
      `__redis__:invalidate` with `data` = [b"<key>"]; if the target is not subscribed (or has
      gone) the message is dropped.  CLIENT TRACKING OFF and closing a connection erase what
@@ -44,10 +44,14 @@ Assumptions (this file is part of the trusted base; spec/Store.tla states the sa
      (redis-py >= 4: auto_close_connection_pool); connections are re-made lazily.
  A7  pottery: `RedisDict` / `RedisList` are views: no local copy, every access is a command.
      Keys and values of a RedisDict and items of a RedisList are JSON text (`json.dumps`).
-     Constructing a view WITH initial content over an existing key raises `KeyExistsError`;
-     without content it issues no command.  `RedisDict.__getitem__`/`__delitem__` raise
+     Constructing a view WITH initial content first asks EXISTS (a read: a tracking client's
+     whole-key write thereby makes the server remember the key, and the HSET/RPUSH that follows
+     invalidates it for the writer too) and raises `KeyExistsError` over an existing key;
+     without content it issues no command.  `RedisList.append` asks LLEN, then RPUSHes.  `RedisDict.__getitem__`/`__delitem__` raise
      KeyError for a missing member; `RedisList` index errors are IndexError.  Iterating a
      RedisDict is HSCAN (keys) and HGET per member; a RedisList is LLEN/LINDEX/LRANGE.
+ A8  `info("server")["redis_version"]` is "6.2.0" unless `reset_server(version=...)` says
+     otherwise.
  A9  PUBLISH reaches every connection subscribed to the channel -- also `__redis__:invalidate`, which
      is an ordinary channel name for PUBLISH: a message published there by one client arrives at the
      tracker connection of EVERY client (redis-py then calls that subscription's handler with `data`
@@ -56,8 +60,6 @@ Assumptions (this file is part of the trusted base; spec/Store.tla states the sa
      `deliver_invalidation`.  If a handler raises, the exception reaches the harness and the
      subscription is dead from then on (in redis-py the exception ends `listen()` and with it the
      listener thread): later messages stay queued for ever.
- A8  `info("server")["redis_version"]` is "6.2.0" unless `reset_server(version=...)` says
-     otherwise.
 """
 import collections
 import collections.abc
